@@ -16,7 +16,7 @@ var (
 	lvals    = []string{"1", "2"}
 	outKeys  = []string{"k1", "k2", "k3", "k4"}
 	vals     = []string{"v1", "v2", "v3"}
-	atomPool = []Atom{{Kind: "key"}, {Kind: "selects"}, {Kind: "selectsNE"}, {Kind: "label"}, {Kind: "nsIndex"}, {Kind: "valIndex"}, {Kind: "outIndex"}, {Kind: "keys"}, {Kind: "objName"},
+	atomPool = []Atom{{Kind: "key"}, {Kind: "selects"}, {Kind: "selectsNE"}, {Kind: "label"}, {Kind: "nsIndex"}, {Kind: "valIndex"}, {Kind: "outIndex"}, {Kind: "nokeys"}, {Kind: "nilkeys"}, {Kind: "keys"}, {Kind: "objName"},
 		{Kind: "generic", N: 0}, {Kind: "generic", N: 1}, {Kind: "generic", N: 2}}
 )
 
@@ -29,21 +29,35 @@ func genTransform(r *wire.Rng) Transform {
 	switch x := r.Intn(100); {
 	case x < 15:
 		nf = 0
-	case x < 65:
+	case x < 60:
 		nf = 1
-	default:
+	case x < 90:
 		nf = 2
+	default:
+		nf = 3
+	}
+	// krt allows one of key / index per fetch (key+index panics, a second index replaces the first)
+	pre := func(k string) bool {
+		return k == "key" || k == "nsIndex" || k == "valIndex" || k == "outIndex" || k == "keys" || k == "nokeys" || k == "nilkeys" || k == "objName"
 	}
 	for i := 0; i < nf; i++ {
 		f := []Atom{wire.Pick(r, atomPool)}
-		if r.Chance(40, 100) {
+		want := 1
+		switch x := r.Intn(100); {
+		case x < 60:
+		case x < 88:
+			want = 2
+		default:
+			want = 3
+		}
+		for tries := 0; len(f) < want && tries < 8; tries++ {
 			b := wire.Pick(r, atomPool)
-			// krt allows one of key / index per fetch (key+index panics, a second index replaces the first)
-			pre := func(k string) bool {
-				return k == "key" || k == "nsIndex" || k == "valIndex" || k == "outIndex" || k == "keys" || k == "objName"
+			bad := false
+			for _, a := range f {
+				if a.Kind == b.Kind || (pre(a.Kind) && pre(b.Kind)) {
+					bad = true
+				}
 			}
-			bad := b.Kind == f[0].Kind && b.Kind != "generic" || (pre(b.Kind) && pre(f[0].Kind)) ||
-				(b.Kind == "generic" && f[0].Kind == "generic")
 			if !bad {
 				f = append(f, b)
 			}
@@ -84,23 +98,24 @@ func genObj(r *wire.Rng, names []string) Obj {
 // general stream an output key only changes parent across a barrier; in the f6 stream it moves
 // without one (new parent first, old parent first, atomically through Reset, or via delete).
 type caseGen struct {
-	r       *wire.Rng
-	t       Transform
-	f6      bool
-	d       *disc
-	sec     map[string]Obj
-	sec2    map[string]Obj
-	secmode string
-	chain   bool
-	touched map[string]int // sj: which of sec (1) / sec2 (2) changed the key since the last barrier
-	lines   []string
-	subs    []string
-	psubs   []string
-	dsubs   []string
-	late    bool
-	single1 bool
-	nsub    int
-	started bool
+	r         *wire.Rng
+	t         Transform
+	f6        bool
+	d         *disc
+	sec       map[string]Obj
+	sec2      map[string]Obj
+	punsubbed []string
+	secmode   string
+	chain     bool
+	touched   map[string]int // sj: which of sec (1) / sec2 (2) changed the key since the last barrier
+	lines     []string
+	subs      []string
+	psubs     []string
+	dsubs     []string
+	late      bool
+	single1   bool
+	nsub      int
+	started   bool
 }
 
 // touch keeps the join discipline of mode sj: a fetched key is changed by one of sec / sec2 between barriers.
@@ -380,7 +395,14 @@ func (g *caseGen) moveKey() {
 		g.pset(np)
 		return
 	}
-	switch g.r.Intn(5) {
+	switch g.r.Intn(6) {
+	case 5: // two claimants of one key across a quiescent point, then the old one lets go
+		g.pset(np)
+		g.sync()
+		if g.r.Chance(50, 100) {
+			g.queries()
+		}
+		g.pset(oldNew)
 	case 0: // new parent first (the deterministic witness of F6)
 		g.pset(np)
 		g.pset(oldNew)
@@ -516,7 +538,7 @@ func (g *caseGen) op() {
 		}
 		g.d.primReset(objs)
 		g.emit(withDuplicate(r, toks, g.t.ByVal, false)...)
-	case x < 92 && g.secmode == "sj": // changes of the second joined collection instead of a Reset
+	case x < 92 && (g.secmode == "sj" || g.secmode == "sm" || g.secmode == "sn"): // changes of the second joined collection instead of a Reset
 		if ks := g.sec2Keys(); len(ks) > 0 && r.Chance(35, 100) {
 			k := wire.Pick(r, ks)
 			g.touch(k, 2)
@@ -559,7 +581,7 @@ func (g *caseGen) op() {
 	default:
 		g.moveKey()
 	}
-	if (g.secmode == "s2" || g.secmode == "sj") && r.Chance(25, 100) {
+	if (g.secmode == "s2" || g.secmode == "sj" || g.secmode == "sm" || g.secmode == "sn") && r.Chance(25, 100) {
 		if ks := g.sec2Keys(); len(ks) > 0 && r.Chance(30, 100) {
 			k := wire.Pick(r, ks)
 			g.touch(k, 2)
@@ -597,17 +619,26 @@ func genCase(r *wire.Rng, n int, stream string, w *wire.Out) {
 		g.chain = true
 	}
 	switch x := r.Intn(100); {
-	case x < 13:
+	case x < 11:
 		g.secmode = "sd"
-	case x < 27:
+	case x < 23:
 		g.secmode = "sj"
-	case x < 40:
+	case x < 34:
 		g.secmode = "s2"
+	case x < 40:
+		g.secmode = "sm"
+	case x < 46:
+		g.secmode = "sn"
+	case x < 52:
+		g.secmode = "sp"
+	case x < 58:
+		g.secmode = "ss"
 	}
 	if g.secmode != "" {
 		head = append(head, g.secmode)
 	}
-	single1 := !g.f6 && r.Chance(8, 100)
+	g.d.primIsSec = g.secmode == "sp" || g.secmode == "ss"
+	single1 := !g.f6 && !g.d.primIsSec && r.Chance(8, 100)
 	if single1 {
 		g.t.ByVal = false // Multi: krt.NewManyFromNothing, else krt.NewSingleton
 		head[3] = g.t.Token()
@@ -622,7 +653,7 @@ func genCase(r *wire.Rng, n int, stream string, w *wire.Out) {
 		switch x := r.Intn(100); {
 		case x < 45:
 			g.pset(g.safeOuts(genObj(r, pnames)))
-		case x < 80 || g.secmode == "" || g.secmode == "sd":
+		case x < 80 || g.secmode == "" || g.secmode == "sd" || g.secmode == "sp" || g.secmode == "ss":
 			g.sset(genObj(r, snames))
 		default:
 			g.tset(genObj(r, snames))
@@ -639,7 +670,36 @@ func genCase(r *wire.Rng, n int, stream string, w *wire.Out) {
 		g.addSub(wire.Pick(r, []string{"single", "batch"}))
 	}
 	nops := 3 + r.Intn(38)
+	burstAt := -1
+	if !g.t.ByVal && !g.single1 && r.Chance(2, 100) {
+		burstAt = r.Intn(nops)
+	}
 	for i := 0; i < nops; i++ {
+		if i == burstAt {
+			// more than 1024 batches for a handler that cannot take them (the ring buffer of its queue grows)
+			g.nsub++
+			name := fmt.Sprintf("s%d", g.nsub)
+			g.emit("sub", name, "gated")
+			g.subs = append(g.subs, name)
+			o := g.safeOuts(genObj(r, pnames))
+			n := 1030 + r.Intn(120)
+			o.Val = "b" + fmt.Sprint((n-1)%2)
+			g.d.primSet(o)
+			g.emit("burst", o.Token(), fmt.Sprint(n))
+			continue
+		}
+		if len(g.psubs) > len(g.punsubbed) && r.Chance(2, 100) {
+			for _, s := range g.psubs {
+				if !contains(g.punsubbed, s) {
+					g.punsubbed = append(g.punsubbed, s)
+					g.d.barrier()
+					g.touched = map[string]int{}
+					g.emit("punsub", s)
+					break
+				}
+			}
+			continue
+		}
 		if g.f6 && r.Chance(15, 100) {
 			g.moveKey()
 			continue
